@@ -37,6 +37,51 @@ class DistAlgebra(Unit):
         ctx.ensure("window extension = ceil(rate (max - min)) >= 1", z3.And(z3.ToReal(w) >= rate * (mx - mn), z3.ToReal(w) < rate * (mx - mn) + 1, w >= 1))
 
 
+class DistCreate(Unit):
+    """TrainableDist.create / equivalent: the route "through the distribution" of the statement - a distribution created with delay d in [min, max] realises exactly d; out-of-range
+    requests, negative or empty ranges and unknown interpolation modes are refused at construction; two distributions are interchangeable at run time exactly when they
+    agree on min, max and interp (whatever their alpha: that is what lets params / init_delays re-parametrise a compiled graph)"""
+    name = "TrainableDist.create / equivalent"
+    target = BASE + "::TrainableDist.create"
+    props = ("C10", "C15")
+
+    def configs(self):
+        for interp in ("zoh", "linear", "linear_real_only", "cubic"):
+            yield f"interp={interp}", dict(interp=interp)
+
+    def opts(self, cfg):
+        return {"assert_raises": True}
+
+    def run(self, ctx):
+        ex, cfg = ctx.ex, ctx.cfg
+        d, mn, mx = z3.Reals("delay min max")
+        cref = ex.module_global(ctx.repo.module(BASE), "TrainableDist")
+        ok_args = z3.And(mn < mx, mn <= d, d <= mx, 0 <= mn)
+        try:
+            D = ctx.call(self_obj=cref, args=[d, mn, mx], kwargs=dict(interp=cfg["interp"]))
+        except RaiseEx as e:
+            ctx.ensure("C10 create refuses (AssertionError) only an empty / negative range, a delay outside [min, max] or an unknown interpolation mode",
+                       z3.And(z3.BoolVal(e.exc == "AssertionError"), z3.Or(z3.Not(ok_args), z3.BoolVal(cfg["interp"] == "cubic"))))
+            return
+        ok = isinstance(D, Rec) and D.cls == "TrainableDist"
+        ctx.ensure("creates a TrainableDist", z3.BoolVal(ok))
+        if not ok:
+            return
+        ctx.ensure("C10 ... and accepts nothing else", z3.And(ok_args, z3.BoolVal(cfg["interp"] != "cubic")))
+        ctx.ensure("C10 the created distribution realises exactly the requested delay: min + alpha (max - min) = d, with alpha in [0, 1]; bounds and interpolation mode are stored as given",
+                   z3.And(toz(D.f["min"]) + toz(D.f["alpha"]) * (toz(D.f["max"]) - toz(D.f["min"])) == d, toz(D.f["alpha"]) >= 0, toz(D.f["alpha"]) <= 1, toz(D.f["min"]) == mn, toz(D.f["max"]) == mx,
+                          z3.BoolVal(D.f["interp"] == cfg["interp"])))
+        # equivalent
+        a2, mn2, mx2 = z3.Reals("alpha2 min2 max2")
+        for other_interp in ("zoh", "linear"):
+            O = Rec("TrainableDist", dict(alpha=a2, min=mn2, max=mx2, interp=other_interp), module=BASE, frozen=True)
+            eq = ex.call(ex.getattr(D, "equivalent"), [O], {})
+            ctx.ensure(f"C10 equivalent(other[{other_interp}]) holds exactly when min, max and the interpolation mode agree - alpha is free",
+                       toz(ex.truth(eq)) == z3.And(mn2 == mn, mx2 == mx, z3.BoolVal(other_interp == cfg["interp"])))
+        S = Rec("StaticDist", dict(rng=z3.Const("rng", Leaf), dist=z3.Const("dist", Leaf)), module=BASE, frozen=True)
+        ctx.ensure("a static distribution is never equivalent to a trainable one", z3.Not(toz(ex.truth(ex.call(ex.getattr(D, "equivalent"), [S], {})))))
+
+
 class ApplyDelayZoh(Unit):
     name = "TrainableDist.apply_delay (zoh)"
     target = BASE + "::TrainableDist.apply_delay"
@@ -171,7 +216,7 @@ DistAlgebra.replay = lambda self, label, clause, probes, model: {"kind": "pure",
 from .c12 import MinimalDelaySubstitution
 from .c07 import ApplyWindowBody
 from .compiled import UpdateInputsDelay
-UNITS = [DistAlgebra(), ApplyDelayZoh(), InitInputsDelays(), MinimalDelaySubstitution(), ApplyWindowBody(), UpdateInputsDelay()]
+UNITS = [DistAlgebra(), DistCreate(), ApplyDelayZoh(), InitInputsDelays(), MinimalDelaySubstitution(), ApplyWindowBody(), UpdateInputsDelay()]
 EXTRA = dict(assumptions=["the coverage lemma 'every generated / recorded graph satisfies the extended-window precondition' needs sender sends >= 1/rate apart; it is NOT proved here (DESIGN 6/C10: refuted for jittery computation delays - recorded as an observation, see DESIGN 7)",
                           "make_update_inputs keeps the previous delay distribution (proved under C08's _update_inputs unit)"])
 
